@@ -185,6 +185,8 @@ fn enforcement_case(ctx: &mut Ctx, start: &str, steps: &[Value], validate_nbf: b
         "exp-string" => { p["exp"] = json!("soon"); expect = !v.validate_exp; }
         "nbf-future" => { p["nbf"] = json!(t + lee + 30); expect = !v.validate_nbf; }
         "nbf-within-leeway" => { p["nbf"] = json!(t + lee - 5); applicable = lee > 10; }
+        // exactly at the boundary: `nbf = now + leeway` is satisfied now and stays so (time only moves on)
+        "nbf-at-the-boundary" => { p["nbf"] = json!(t + lee); }
         // NumericDate may carry a fraction (RFC 7519): a token that is not valid yet / has expired stays so
         "nbf-fraction-future" => { p["nbf"] = json!((t + lee + 30) as f64 + 0.5); expect = !v.validate_nbf; }
         "exp-fraction-expired" => { p["exp"] = json!((t - lee - 5) as f64 + 0.5); expect = !v.validate_exp; }
@@ -251,7 +253,7 @@ fn enforcement_case(ctx: &mut Ctx, start: &str, steps: &[Value], validate_nbf: b
 }
 
 const VARIANTS: &[&str] = &[
-    "all-satisfied", "iat-future", "iat-odd", "exp-expired", "exp-within-leeway", "exp-missing", "exp-string", "nbf-future", "nbf-within-leeway", "nbf-missing", "nbf-fraction-future", "exp-fraction-expired",
+    "all-satisfied", "iat-future", "iat-odd", "exp-expired", "exp-within-leeway", "exp-missing", "exp-string", "nbf-future", "nbf-within-leeway", "nbf-missing", "nbf-fraction-future", "exp-fraction-expired", "nbf-at-the-boundary",
     "aud-wrong", "aud-array-disjoint", "aud-array-containing", "aud-missing", "aud-number", "iss-wrong", "iss-missing", "sub-wrong", "sub-missing",
     "required-missing", "required-only-nested", "other-alg",
 ];
